@@ -205,6 +205,32 @@ pub struct Resp {
     pub energy_used: u64,
 }
 
+/// Nest `d1` activations of a generated recursive helper, `invoke` (a transfer) at that depth, after
+/// the resume nest `d2` activations further and optionally `invoke` again at depth `d1 + d2`; then
+/// return all the way up. Results go to the result slots 254 and 255.
+#[derive(Clone, Debug, PartialEq, Eq)]
+pub struct Deep {
+    pub d1: u32,
+    pub d2: u32,
+    pub second: bool,
+    /// blob with the 40 byte transfer payload
+    pub payload: usize,
+}
+
+impl Deep {
+    /// number of the helper's invokes an execution reaches when at most `limit` nested activations
+    /// are possible, and whether it runs into the limit
+    pub fn reached(&self, limit: u32) -> (usize, bool) {
+        if self.d1 > limit {
+            (0, true)
+        } else if self.d1 as u64 + self.d2 as u64 > limit as u64 {
+            (1, true)
+        } else {
+            (1 + self.second as usize, false)
+        }
+    }
+}
+
 #[derive(Clone, Debug)]
 pub struct Script {
     pub kind: Kind,
@@ -231,6 +257,8 @@ pub struct Script {
     pub responses: Vec<Resp>,
     /// D nested activations of a generated recursive function before the calls
     pub recursion: Option<u32>,
+    /// interrupts issued from nested functions, before the calls (v1 receive only)
+    pub deep: Option<Deep>,
     pub amount: u64,
     pub balance: u64,
     pub slot_time: u64,
@@ -357,14 +385,23 @@ pub fn compile(s: &Script) -> Compiled {
     if s.ret == Ret::Accept {
         import_of("accept", &mut types, &mut imports);
     }
+    if s.deep.is_some() {
+        import_of("invoke", &mut types, &mut imports);
+    }
     let nimp = imports.len() as u32;
     let entry_ty = intern(&mut types, FuncTy { params: vec![I64], result: Some(I32) });
     let entry = nimp;
     let rec_idx = nimp + 1;
+    let deep_a = nimp + 1 + s.recursion.is_some() as u32;
+    let deep_b = deep_a + 1;
     let mut body: Vec<Instr> = vec![];
     if let Some(d) = s.recursion {
         body.push(Instr::Const32(d.saturating_sub(1) as i32));
         body.push(Instr::Call(rec_idx));
+    }
+    if let Some(d) = &s.deep {
+        body.push(Instr::Const32(d.d1.saturating_sub(1) as i32));
+        body.push(Instr::Call(deep_a));
     }
     let slot_addr = |slot: usize| (RES_BASE as usize + 8 * (slot % MAX_SLOTS)) as i32;
     for c in &s.calls {
@@ -450,6 +487,25 @@ pub fn compile(s: &Script) -> Compiled {
             ],
         });
     }
+    if let Some(d) = &s.deep {
+        let rt = intern(&mut types, FuncTy { params: vec![I32], result: None });
+        let inv = import_of("invoke", &mut types, &mut imports);
+        let ptr = layout.blob_addr.get(d.payload).copied().unwrap_or(0) as i32;
+        let invoke_to = |slot: usize| vec![Instr::Const32(slot_addr(slot)), Instr::Const32(0), Instr::Const32(ptr), Instr::Const32(40), Instr::Call(inv), Instr::Mem(0x37, 0, 0)];
+        // A(n): at n == 0 invoke, then nest d2 further through B; otherwise A(n - 1)
+        let mut bottom_a = invoke_to(MAX_SLOTS - 2);
+        if d.d2 > 0 {
+            bottom_a.push(Instr::Const32((d.d2 - 1) as i32));
+            bottom_a.push(Instr::Call(deep_b));
+        }
+        bottom_a.push(Instr::Op(OP_RETURN));
+        funcs.push(Func { ty: rt, locals: vec![], body: vec![Instr::LocalGet(0), Instr::Op(0x45), Instr::If(None, bottom_a, None), Instr::LocalGet(0), Instr::Const32(1), Instr::Op(0x6b), Instr::Call(deep_a)] });
+        // B(n): at n == 0 optionally invoke again; otherwise B(n - 1)
+        let mut bottom_b = if d.second { invoke_to(MAX_SLOTS - 1) } else { vec![] };
+        bottom_b.push(Instr::Op(OP_RETURN));
+        funcs.push(Func { ty: rt, locals: vec![], body: vec![Instr::LocalGet(0), Instr::Op(0x45), Instr::If(None, bottom_b, None), Instr::LocalGet(0), Instr::Const32(1), Instr::Op(0x6b), Instr::Call(deep_b)] });
+    }
+    debug_assert_eq!(imports.len() as u32, nimp);
     let mut data: Vec<(u32, Vec<u8>)> = vec![];
     for (i, b) in s.blobs.iter().enumerate() {
         if !b.bytes.is_empty() && b.bytes.iter().any(|x| *x != 0) {
@@ -513,6 +569,7 @@ pub fn to_json(s: &Script) -> J {
         "dump": format!("{:?} {} bytes", s.dump, s.dump_len),
         "responses": s.responses.iter().map(|r| format!("{:?}", r)).collect::<Vec<_>>(),
         "recursion_depth": s.recursion,
+        "nested_interrupts": s.deep.as_ref().map(|d| format!("nest {} activations, invoke(transfer) there, nest {} further{}; total {}", d.d1, d.d2, if d.second { ", invoke again at the bottom" } else { "" }, d.d1 + d.d2)),
         "amount": s.amount, "self_balance": s.balance, "slot_time": s.slot_time, "sender_is_contract": s.sender_contract,
         "module_hex": vmon_core::hex_short(&compile(s).module.encode(), 1500),
     })
@@ -556,12 +613,18 @@ pub fn shrink(s: &Script, mut bad: impl FnMut(&Script) -> bool, max_tries: usize
                 progress = true;
             }
         }
-        for step in 0..6 {
+        for step in 0..8 {
             if tries >= max_tries {
                 return cur;
             }
             let mut c = cur.clone();
             match step {
+                6 if c.deep.is_some() => c.deep = None,
+                7 if c.deep.as_ref().map(|d| d.second).unwrap_or(false) => {
+                    if let Some(d) = c.deep.as_mut() {
+                        d.second = false;
+                    }
+                }
                 0 if c.recursion.is_some() => c.recursion = None,
                 1 if c.dump != Dump::None => c.dump = Dump::None,
                 2 if !c.v1_state.is_empty() => c.v1_state.clear(),
